@@ -131,6 +131,14 @@ type Sim struct {
 	maxPeriod map[basics.Round]uint64 // highest period seen in honest-originated votes per round
 	batchOwn  map[int][]UVote // own attest votes emitted in the reaction being collected
 	shadowSeq int
+	tallyOn     bool
+	tallies     map[int]map[string]*stepTally
+	refW        map[string]uint64
+	refBundleOK map[string]bool
+	seenVotes   []UVote   // reference-valid honest votes observed on the wire (material for the adversary)
+	seenBundles []UBundle // bundles observed on the wire
+	seenRaw     []outMsg  // raw messages (replay / corruption material)
+	values      map[basics.Round][]PValue
 	shadowTick int
 }
 
@@ -427,8 +435,19 @@ func (s *Sim) collect() {
 			s.log.Add("  n%d.%d disconnects=%d", n.id, in.inc, disc)
 			s.stat("disconnect", int64(disc))
 		}
-		for _, m := range out {
-			key, dec := msgKey(m.tag, m.data)
+		keys := make([]string, len(out))
+		decs := make([]any, len(out))
+		for i, m := range out {
+			keys[i], decs[i] = msgKey(m.tag, m.data)
+			// pre-pass: a node's own votes of this reaction enter the reference state before any
+			// check, because the emission order inside one reaction is canonicalised, not causal
+			if v, ok := decs[i].(UVote); ok && s.owns(n, v.R.Sender) {
+				s.emitted[voteSha(v)] = true
+				s.tallyAdd(n.id, v)
+			}
+		}
+		for i, m := range out {
+			key, dec := keys[i], decs[i]
 			s.log.Add("  n%d.%d emit %s bcast=%v ex=%d", n.id, in.inc, key, m.bcast, m.except)
 			s.onEmit(n, in, m, key, dec)
 			s.fanout(n, m, key)
@@ -881,6 +900,7 @@ func (s *Sim) asyncStep() {
 
 func (s *Sim) deliver(f *flight) {
 	d := s.nodes[f.to]
+	s.tallyDeliver(f.to, f.tag, f.data)
 	ok := d.cur.net.deliver(f.tag, f.from, f.data)
 	s.log.Add("deliver m%d %d->%d %s ok=%v", f.id, f.from, f.to, f.key, ok)
 	s.stat("deliver", 1)
@@ -967,9 +987,11 @@ func (Engine) Run(t *testing.T, prop, tier string, tape *kernel.Tape, keepLog bo
 			s = &Sim{t: t, tape: tape, log: kernel.NewLog(keepLog), dir: dir,
 				commits: map[basics.Round]map[crypto.Digest]string{}, canon: map[basics.Round]bookkeeping.Block{}, canonCert: map[basics.Round]agreement.Certificate{},
 				blocks: map[crypto.Digest]bookkeeping.Block{}, origin: map[string]map[PValue]string{}, emitted: map[string]bool{},
-				states: map[string]bool{}, stats: map[string]int64{}, maxPeriod: map[basics.Round]uint64{}}
+				states: map[string]bool{}, stats: map[string]int64{}, maxPeriod: map[basics.Round]uint64{},
+				tallies: map[int]map[string]*stepTally{}, refW: map[string]uint64{}, refBundleOK: map[string]bool{}, values: map[basics.Round][]PValue{}}
 			s.never = make(chan struct{})
 			s.cfg = drawConfig(tape, prop, tier)
+			s.tallyOn = prop == "C04" || prop == "C06" || prop == "C03" || prop == "C01"
 			s.installOracles()
 			s.run()
 			s.cleanup()
